@@ -12,6 +12,9 @@ use std::path::PathBuf;
 use std::sync::Arc;
 
 use cascette_crypto::EncodingKey;
+#[cfg(feature = "verif-hooks")]
+use crate::verif_hooks::sync::RwLock;
+#[cfg(not(feature = "verif-hooks"))]
 use parking_lot::RwLock;
 use tracing::{debug, warn};
 
